@@ -157,10 +157,9 @@ fn inject(m: &mut RecipeM, sample: u8, variant: u8, pos: u16) {
             TokM::Comp(comp("eggs", Some(QtyM { lock: false, value: ValM::Text(v.into()), unit, blank_sep: false })))
         }
         2 => {
-            let v = ["1 kg", "2 cups", "1/2 tsp", "1.5 l"][variant as usize % 4];
-            let mut c = comp("water", Some(QtyM { lock: false, value: ValM::Text(v.into()), unit: None, blank_sep: false }));
-            c.kind = Kind::Ingredient;
-            TokM::Comp(c)
+            // ingredient or cookware (`#pan{2 large}` is a text value as well)
+            let v = ["1 kg", "2 cups", "1/2 tsp", "1.5 l", "2 large", "1 1/2 dozen"][(variant as usize / 2) % 6];
+            TokM::Comp(comp("water", Some(QtyM { lock: false, value: ValM::Text(v.into()), unit: None, blank_sep: false })))
         }
         3 => {
             m.front = None;
